@@ -133,6 +133,7 @@ type Sig struct {
 	Polls    int
 	Fired    bool
 	Trace    []Rec
+	Runaway  bool
 	AfterHit int // probe calls that happened after the signal was observed true
 	Limit    int // max probe calls after firing before the probe aborts the run (0 = 100)
 }
@@ -144,12 +145,20 @@ func (abortRun) String() string { return "verif-probe-abort" }
 // AbortSentinel is the panic value used to stop a run that keeps executing after the signal fired.
 var AbortSentinel = abortRun{}
 
+// RunawayPolls bounds a run whose signal never fires: a run that is still polling after this many
+// polls is stopped and marked Runaway (the reference terminated long before).
+const RunawayPolls = 3_000_000
+
 func (s *Sig) ExitSignal() bool {
 	s.mu.Lock()
 	defer s.mu.Unlock()
 	s.Polls++
 	if s.FireAt > 0 && s.Polls >= s.FireAt {
 		s.Fired = true
+	}
+	if s.FireAt <= 0 && s.Polls > RunawayPolls {
+		s.Runaway = true
+		return true
 	}
 	return s.Fired
 }
@@ -339,7 +348,6 @@ func V2() map[string]*runtimev2.Fn {
 			if t := trace2(ctx); t != nil {
 				t.add(r)
 			}
-			ctx.Regs.Reset()
 			return nil
 		},
 		Desc: runtimev2.FnDesc{Name: "probe", Params: variadic},
@@ -384,6 +392,28 @@ func V2() map[string]*runtimev2.Fn {
 			return nil
 		},
 		Desc: runtimev2.FnDesc{Name: "pvoid1", Params: one},
+	}
+	// pvoidv(v...) reads a variadic parameter and returns nothing.
+	varOnly := []*runtimev2.Param{{Name: "vals", Variable: true}}
+	fns["pvoidv"] = &runtimev2.Fn{
+		CallCheck: chk(varOnly),
+		Call: func(ctx *runtimev2.Task, e *ast.CallExpr) *errchain.PlError {
+			vals, err := runtimev2.GetParam(ctx, e, varOnly, 0)
+			if err != nil {
+				return err
+			}
+			r := Rec{Label: "pvoidv"}
+			if l, ok := vals.([]any); ok {
+				for _, v := range l {
+					r.Vals = append(r.Vals, Render(v))
+				}
+			}
+			if t := trace2(ctx); t != nil {
+				t.add(r)
+			}
+			return nil
+		},
+		Desc: runtimev2.FnDesc{Name: "pvoidv", Params: varOnly},
 	}
 	fns["perr"] = &runtimev2.Fn{
 		CallCheck: chk(none),
